@@ -1,12 +1,198 @@
-import NasdaqModel.Model.GenSoupApp
+import NasdaqModel.Lemmas.GenSoupAppLemmas
 /-
 C15 — code generated from an ITCH/OUCH/SQF XML specification implements exactly that specification.
-(theorems under construction)
+
+Model: `Model/GenSoupApp.lean` (`gen` = parser.py + the mustache templates + the `generate` entry points, at the level of
+abstract generated code; `evalModule` = importing that code; `denote` = the reference semantics written from the documented
+XML format).  Only property theorems and their non-vacuity examples live here; the proof is in
+`Lemmas/GenSoupAppLemmas.lean`.  Counterexamples on the unchanged generator for the shapes `wfSpec` excludes are in
+`Witness/C15.lean`.
 -/
 namespace NasdaqModel.Props.C15
 open NasdaqModel GenSoupApp
 
-theorem C15_table_ids : ∀ p : Prim, dictGet? typeDefs p.id = some (.prim p) := by
-  intro p; cases p <;> decide
+/-- **Main theorem.**  For every well-formed specification, for each of the three protocols, any application name and
+    either setting of `--override-messages`: the generator succeeds, the module it writes imports, and what the import
+    defines — `__all__`, the enum classes with their members and values, the record classes, the message classes with
+    message id, direction, and for every class the fields in order with their types (datatype class, fixed length,
+    record class, array element and count type) and defaults — is exactly the schema the specification denotes. -/
+theorem C15_gen_denotes (impl : Impl) (app : Str) (override : Bool) (s : Spec) (h : wfSpec impl s = true) :
+    ∃ m sch, gen impl app override s = .ok m ∧ evalModule m = .ok sch ∧ denote impl s = .ok sch :=
+  ⟨_, _, gen_eval_denote app override h⟩
+
+/-- the same as one equation between the two pipelines (and the reference semantics is defined on the specification) -/
+theorem C15_gen_denotes_eq (impl : Impl) (app : Str) (override : Bool) (s : Spec) (h : wfSpec impl s = true) :
+    (gen impl app override s >>= evalModule) = denote impl s ∧ ∃ sch, denote impl s = .ok sch := by
+  obtain ⟨h1, h2, h3⟩ := gen_eval_denote app override h
+  rw [h1, h3]
+  exact ⟨h2, _, rfl⟩
+
+/-- the generated module does not depend on `--override-messages` or on anything but the specification, the protocol
+    and the application name (for well-formed specifications) -/
+theorem C15_override_irrelevant (impl : Impl) (app : Str) (s : Spec) (h : wfSpec impl s = true) :
+    gen impl app true s = gen impl app false s := by
+  rw [(gen_eval_denote app true h).1, (gen_eval_denote app false h).1]
+
+/-! ### what the denoted (hence the generated) schema contains — the clauses of the statement, read off `denote` -/
+
+/-- "exports one class per enum, record and message": `__all__` is the three fixed names followed by every enum, record
+    and message name in document order, and the classes are exactly those, in that order -/
+theorem C15_one_class_each (impl : Impl) (app : Str) (override : Bool) (s : Spec) (h : wfSpec impl s = true) :
+    ∃ m sch, gen impl app override s = .ok m ∧ evalModule m = .ok sch
+      ∧ sch.exports = [cp "Message", cp "ClientSession", cp "connect_async"] ++ classNames s
+      ∧ sch.enums.map (·.name) = s.enums.map (·.name)
+      ∧ sch.records.map (·.name) = s.records.map (·.name)
+      ∧ sch.messages.map (·.name) = s.messages.map (·.name) := by
+  obtain ⟨h1, h2, _⟩ := gen_eval_denote app override h
+  have hw := wfSpec_inv h
+  refine ⟨_, _, h1, h2, ?_, ?_, ?_, ?_⟩
+  · simp [specSchema, classNames, List.append_assoc]
+  · simp only [specSchema, List.map_map]
+    exact List.map_congr_left (fun e he => (enum_facts hw he).2.2.1)
+  · simp [specSchema, List.map_map, Function.comp_def, recSem]
+  · simp [specSchema, List.map_map, Function.comp_def, msgSem]
+
+/-- the name a field denotes is the `name` attribute, or the name of the referenced definition when there is none -/
+theorem C15_field_name {s : Spec} {f0 : FieldEl} {fs : FieldS} (h : denoteField s f0 = .ok fs) :
+    fs.name = resolvedName s f0 := by
+  unfold denoteField at h
+  unfold resolvedName
+  cases hr : resolveDef s f0 with
+  | error e => rw [hr] at h; cases h
+  | ok f =>
+    rw [hr] at h
+    simp only at h
+    unfold denoteResolved at h
+    cases hd : docElemTy s f with
+    | error e => rw [hd] at h; cases h
+    | ok td =>
+      obtain ⟨t, dom⟩ := td
+      rw [hd] at h
+      simp only at h
+      cases hn : f.name with
+      | none => rw [hn] at h; cases h
+      | some name =>
+        rw [hn] at h
+        simp only [hn, orEmpty]
+        simp only at h
+        split at h
+        · split at h
+          · cases h
+          · cases h; rfl
+        · split at h
+          · cases h; rfl
+          · split at h
+            · cases h
+            · cases h; rfl
+          · cases h
+
+/-- "each message class has exactly the specified fields in the specified order … message id and direction":
+    the k-th generated message class has the k-th message's name, its id as a number (a one-character id is its code
+    point), its direction (OUCH, SQF), and its fields are the message's `<field>`s in document order under their
+    resolved names -/
+theorem C15_messages_as_specified (impl : Impl) (app : Str) (override : Bool) (s : Spec) (h : wfSpec impl s = true) :
+    ∃ m sch, gen impl app override s = .ok m ∧ evalModule m = .ok sch
+      ∧ sch.messages.map (fun g => (g.name, g.id, g.dir, g.fields.map (·.name)))
+        = s.messages.map (fun g => (g.name, msgIdVal g, (if impl = .itch then none else g.direction),
+                                     g.fields.map (resolvedName s)))
+      ∧ ∀ g ∈ s.messages, denoteMsgId g.msgId = .ok (msgIdVal g) ∧ msgIdVal g < 256 := by
+  obtain ⟨h1, h2, _⟩ := gen_eval_denote app override h
+  have hw := wfSpec_inv h
+  refine ⟨_, _, h1, h2, ?_, ?_⟩
+  · simp only [specSchema, List.map_map]
+    apply List.map_congr_left
+    intro g hg
+    have hwg := hw.msgs g hg
+    have hwg' := hwg
+    simp only [wfMessage, Bool.and_eq_true, wfFields] at hwg'
+    obtain ⟨⟨_, hdir⟩, ⟨_, hfields⟩, _⟩ := hwg'
+    obtain ⟨_, _, d3⟩ := direction_facts hdir
+    have hnames : (g.fields.map (fieldSem s)).map (·.name) = g.fields.map (resolvedName s) := by
+      rw [List.map_map]
+      apply List.map_congr_left
+      intro f0 hf0
+      have hwf := List.all_eq_true.mp hfields f0 hf0
+      -- the denotation of a well-formed field exists (main theorem, field level)
+      have hseen : ∀ n ∈ s.records.map (·.name), ∃ r, findRecord? s n = some r := by
+        intro n hn
+        obtain ⟨r, hr, rfl⟩ := List.mem_map.mp hn
+        exact findRecord?_of_mem hr
+      -- any namespace in which the record names are bound will do; use the one the import reaches
+      obtain ⟨env1, _, henv1⟩ := enums_ok hw s.enums [] (initEnv impl) (fun _ hx => hx) (EnvOk.initial impl)
+      have henv1' : EnvOk impl (s.enums.map (·.name)) [] env1 := henv1.mono (fun n hn => by simpa using hn) (fun _ hn => hn)
+      obtain ⟨env2, _, henv2, _⟩ := records_ok hw s.records [] env1 (fun _ hx => hx) (fun _ hn => by cases hn) henv1' hw.recs
+      have henv2' : EnvOk impl (s.enums.map (·.name)) (s.records.map (·.name)) env2 :=
+        henv2.mono (fun _ hn => hn) (fun n hn => by simpa using hn)
+      obtain ⟨_, sem, _, _, _, _, h5⟩ := field_ok henv2' hseen hwf
+      have : fieldSem s f0 = sem := getOk_eq h5
+      simp only [Function.comp_apply, this]
+      exact C15_field_name h5
+    simp only [Function.comp_apply, msgSem, hnames]
+    cases impl <;> simp [d3.symm]
+  · intro g hg
+    obtain ⟨n, hid, hlt⟩ := wfMessage_id (hw.msgs g hg)
+    simp only [msgIdVal, hid]
+    exact ⟨trivial, hlt⟩
+
+/-- "big/little-endian array counts": the count class the generator writes is `UnsignedShortBE` exactly for
+    `endian="big"`, and `UnsignedShort` for every other or no `endian` attribute -/
+theorem C15_array_count (e : Option Str) :
+    countCls e = (if e = some (cp "big") then Prim.uint2be.cls else Prim.uint2.cls)
+    ∧ Prim.uint2be.id = cp "uint_2_be" ∧ Prim.uint2.id = cp "uint_2" := by
+  refine ⟨?_, rfl, rfl⟩
+  unfold countCls
+  by_cases h : e = some (cp "big") <;> simp [h]
+
+/-- the datatype table the generator uses (`TypeDefinition.Definitions`: id ↦ class name) covers exactly the documented
+    ids, and every id resolves to its own class -/
+theorem C15_table :
+    typeDefs.map (·.1) = [cp "boolean", cp "byte", cp "int_2", cp "int_2_be", cp "uint_2", cp "uint_2_be", cp "int_4",
+      cp "int_4_be", cp "uint_4", cp "uint_4_be", cp "int_8", cp "int_8_be", cp "uint_8", cp "uint_8_be", cp "char_ascii",
+      cp "char_iso-8859-1", cp "str_ascii", cp "str_iso-8859-1", cp "str_ascii_n", cp "str_iso-8859-1_n"]
+    ∧ (∀ p : Prim, typeDef (some p.id) = .ok (.prim p) ∧ docPrim p.id = some p)
+    ∧ (∀ iso : Bool, typeDef (some (fixedId iso)) = .ok (.fixed iso) ∧ docFixed (fixedId iso) = some iso) := by
+  refine ⟨by decide, fun p => ⟨typeDef_prim p, docPrim_id p⟩, fun iso => ⟨typeDef_fixed iso, ?_⟩⟩
+  cases iso <;> decide
+
+/-! ### non-vacuity: a specification that uses every construct is well-formed, for each protocol -/
+
+/-- enums of a character and of an integer type; reusable field definitions; a record that uses an earlier record;
+    messages with scalar, enum, record, array (big-endian, little-endian, of records, of enums) and fixed-length string
+    fields, `def=` references with and without rename, defaults (integer, character enum, string, fixed string), a numeric
+    and a character message id -/
+def demo : Spec where
+  enums := [
+    ⟨cp "Side", some (cp "char_iso-8859-1"), [⟨cp "Buy", cp "B"⟩, ⟨cp "Sell", cp "S"⟩]⟩,
+    ⟨cp "Tif", some (cp "uint_2_be"), [⟨cp "Day", cp "0"⟩, ⟨cp "Ioc", cp "3"⟩]⟩]
+  fielddefs := [
+    { name := some (cp "price"), ty := some (cp "int_8_be"), dflt := some (cp "-1") },
+    { name := some (cp "account"), ty := some (cp "str_iso-8859-1_n"), length := some (cp "16"), dflt := some (cp "ACC 1") }]
+  records := [
+    ⟨cp "Leg", [{ defn := some (cp "price") }, { name := some (cp "side"), ty := some (cp "enum:Side"), dflt := some (cp "B") }]⟩,
+    ⟨cp "Strategy", [{ name := some (cp "legs"), ty := some (cp "record:Leg"), array := some (cp "true"), endian := some (cp "big") },
+                     { name := some (cp "first"), ty := some (cp "record:Leg") }]⟩]
+  messages := [
+    ⟨cp "EnterOrder", cp "69", none, some (cp "incoming"), [
+      { name := some (cp "token"), ty := some (cp "uint_4") },
+      { name := some (cp "limit"), defn := some (cp "price") },
+      { defn := some (cp "account") },
+      { name := some (cp "tif"), ty := some (cp "enum:Tif"), dflt := some (cp "3") },
+      { name := some (cp "sides"), ty := some (cp "enum:Side"), array := some (cp "true") },
+      { name := some (cp "strategy"), ty := some (cp "record:Strategy") },
+      { name := some (cp "text"), ty := some (cp "str_ascii"), dflt := some (cp "n/a") },
+      { name := some (cp "flag"), ty := some (cp "boolean") }]⟩,
+    ⟨cp "Accepted", cp "A", some (cp "g1"), some (cp "outgoing"), [
+      { name := some (cp "ids"), ty := some (cp "int_4_be"), array := some (cp "true"), endian := some (cp "little") }]⟩]
+
+example : wfSpec .itch demo = true ∧ wfSpec .ouch demo = true ∧ wfSpec .sqf demo = true := by decide
+
+/-- the three pipelines on the demo specification, computed (independently of the theorem) -/
+example : (gen .ouch (cp "oe") true demo >>= evalModule) = denote .ouch demo := by decide
+
+example : ∃ sch, denote .ouch demo = .ok sch
+    ∧ sch.messages.map (fun g => (g.id, g.dir)) = [(69, some (cp "incoming")), (65, some (cp "outgoing"))]
+    ∧ sch.records.map (fun r => r.fields.map (·.ty))
+        = [[.prim .int8be, .prim .charIso], [.array (.record (cp "Leg")) (.prim .uint2be), .record (cp "Leg")]] :=
+  ⟨_, rfl, by decide, by decide⟩
 
 end NasdaqModel.Props.C15
